@@ -348,7 +348,7 @@ def _vjob(job):
         return {"id": tid, "error": f"{type(e).__name__}: {e}"}
     return {"id": tid, "ev": [] if c03only else ev, "c03only": c03only, "obs": {"nodes": nodes, "par": par},
             "obsw": {"nodes": nw, "par": pw},
-            "obs2": {"nodes": n2, "par": p2}, "ids": ids, "dups": R.dup_nodes(doc) + R.dup_nodes(doc2)}
+            "obs2": {"nodes": n2, "par": p2}, "ids": ids, "dups": R.dup_nodes(doc) + R.dup_nodes(doc2) + R.parent_mismatches(doc) + R.parent_mismatches(doc2)}
 
 
 def _sphinx_batch(job):
